@@ -323,6 +323,48 @@ def classify_while(loop, f, idx):
             if all(is_link(st.value) for st in steps):
                 # every path reassigns: at least one step at top level or in an if/else covering both branches
                 return "STRUCT", "link walk: %s moves along a stored link of the tree arrays on every iteration" % walk_var
+    # ---------------- shrink scan, path form:  while i < X.n:  every path through the body either removes one element (a callee decrements the
+    #                  bound) without moving i backwards on balance, or advances i: the variant X.n - i drops on every path
+    if ncmp(loop.test) is not None and ncmp(loop.test)[0] == "<" and isinstance(ncmp(loop.test)[1], ast.Name) and isinstance(ncmp(loop.test)[2], ast.Attribute):
+        cvar, bound = ncmp(loop.test)[1].id, ncmp(loop.test)[2]
+        battr = bound.attr
+
+        def decrements_bound(call):
+            if not isinstance(call.func, ast.Attribute):
+                return False
+            for m in idx.lib_modules():
+                for ci in m.classes.values():
+                    callee = ci.methods.get(call.func.attr)
+                    if callee is not None:
+                        for st in iter_stmts(callee.node.body):
+                            if isinstance(st, ast.AugAssign) and isinstance(st.op, ast.Sub) and const(st.value) == 1 and u(st.target) == "self." + battr:
+                                return True
+            return False
+
+        def paths(body):
+            """list of (net change of the counter, number of removals) or None when something is not understood"""
+            out = [(0, 0)]
+            for st in body:
+                if isinstance(st, ast.If):
+                    pa, pb = paths(st.body), paths(st.orelse)
+                    if pa is None or pb is None:
+                        return None
+                    out = [(d + d2, r + r2) for d, r in out for d2, r2 in pa + pb] if False else \
+                        [(d + d2, r + r2) for d, r in out for d2, r2 in pa] + [(d + d2, r + r2) for d, r in out for d2, r2 in pb]
+                elif isinstance(st, ast.AugAssign) and u(st.target) == cvar and isinstance(const(st.value), int) and isinstance(st.op, (ast.Add, ast.Sub)):
+                    k = const(st.value) * (1 if isinstance(st.op, ast.Add) else -1)
+                    out = [(d + k, r) for d, r in out]
+                elif any(isinstance(n, ast.Name) and n.id == cvar and isinstance(n.ctx, ast.Store) for n in ast.walk(st)):
+                    return None
+                elif isinstance(st, (ast.Break, ast.Return, ast.Continue, ast.While, ast.For)):
+                    return None
+                else:
+                    rem = sum(1 for c in calls(st) if decrements_bound(c))
+                    out = [(d, r + rem) for d, r in out]
+            return out
+        ps = paths(loop.body)
+        if ps and any(r for d, r in ps) and all((-r - d) < 0 and d >= (0 if r else 1) for d, r in ps):
+            return "STRUCT", "shrink scan: on every path through the body either one element is removed (the callee decrements %s) with the position kept, or %s advances: the variant %s - %s drops" % (u(bound), cvar, u(bound), cvar)
     # ---------------- shrink scan (EPA face removal):  while i < X.n: if c: remove(i); i -= 1 ... i += 1
     if ncmp(loop.test) is not None:
         op, a, b = ncmp(loop.test)
